@@ -3,7 +3,7 @@
    input lines:
      <id> P <ev> ...            ev  = W:<closing 0|1>:<payload hex> | R:<k> | C
      <id> U <limit> <closed 0|1> <len>      (payload byte i = (i*7+3) mod 256)
-     <id> Q <limit> <len>                   (relay uplink; output <forwarded len>:<identical>:<prefix> | none:0:0)
+     <id> Q|QP|QD|QDP|QS <limit> <len>      (UDP relays; output <forwarded len>:<identical>:<prefix> | none:0:0)
      <id> S <ids: a,b,..|-> <sev> ...       sev = V:<sid>:<closing 0|1|2>:<payload hex> | R:<sid>:<k> | X:<sid>
    output lines:
      <id> wS|wC|wP|wB  r:<hex>|rF|rS|rE  c ... i:<len lens>:<len buf>:<closed>
@@ -55,14 +55,26 @@ let () = iter_lines (fun line ->
     Printf.printf "%s %d %s %d %s\n" id (int_of_z w)
       (match e with SwNil -> "nil" | SwBrokenStream -> "broken" | SwShortBuffer -> "short")
       (List.length fs) (match fs with [f] -> b01 (f = inp) | _ -> "-")
-  | [id; "Q"; limit; len] ->
-    (* the UDP relay's uplink: <len> bytes arrive on the local socket; output what goes into the stream *)
+  | [id; which; limit; len] when which = "Q" || which = "QP" || which = "QD" || which = "QDP" || which = "QS" ->
+    (* the UDP relays.  Q: client uplink, current buffer; QP: with the pre-fix buffer; QD / QDP: client
+       downlink (a pipe holding one datagram of <len> bytes); QS: server side Stream.ReadFrom.
+       output <forwarded len>:<identical>:<prefix> | none:0:0 *)
     let n = int_of_string len in
     let inp = List.init n (fun i -> byte_table.((i * 7 + 3) mod 256)) in
-    let ((w, e), fs) = route_udp_up (max_unit (z_of_int (int_of_string limit))) inp in
-    let rec is_prefix a b = match a, b with [], _ -> true | x :: a', y :: b' -> x = y && is_prefix a' b' | _ -> false in
-    Printf.printf "%s %s\n" id
-      (match fs with [f] -> Printf.sprintf "%d:%s:%s" (List.length f) (b01 (f = inp)) (b01 (is_prefix f inp)) | _ -> "none:0:0")
+    let maxu = max_unit (z_of_int (int_of_string limit)) in
+    let rec is_prefix a b = match a, b with [] , _ -> true | x :: a', y :: b' -> x = y && is_prefix a' b' | _ -> false in
+    let show = function
+      | Some f -> Printf.sprintf "%d:%s:%s" (List.length f) (b01 (f = inp)) (b01 (is_prefix f inp))
+      | None -> "none:0:0" in
+    let one = function [f] -> Some f | _ -> None in
+    let res = match which with
+      | "Q" -> let ((_, _), fs) = route_udp_up maxu inp in one fs
+      | "QP" -> let ((_, _), fs) = relay_up relay_buf_prefix maxu inp in one fs
+      | "QD" | "QDP" ->
+        let (p, _) = dg_write dg_init false inp in
+        snd (relay_down (if which = "QD" then relay_buf else relay_buf_prefix) p)
+      | _ -> one (stream_read_from_dgram maxu inp) in
+    Printf.printf "%s %s\n" id (show res)
   | id :: "S" :: ids :: evs ->
     let ids = if ids = "-" then [] else List.map (fun s -> n_of_int (int_of_string s)) (split_on ',' ids) in
     let es = List.map parse_sev evs in
